@@ -319,7 +319,9 @@ func refVerify(pub any, h, s uint8, data, sig []byte) (stage string) {
 	return stSigAlg
 }
 
-func reached(stage string) bool { return stage == stAccept || stage == stPrimitive || stage == stNonPos }
+func reached(stage string) bool {
+	return stage == stAccept || stage == stPrimitive || stage == stNonPos
+}
 
 // ---------------------------------------------------------------------------
 // Test-side signers. Deterministic (the nonce is derived from the key and the
